@@ -9,6 +9,7 @@ import Mathlib.Analysis.SpecialFunctions.Log.Deriv
 import Mathlib.Analysis.Calculus.Deriv.Inverse
 import Smooth.Proofs.Eval
 import Smooth.Proofs.Vars
+import Smooth.Proofs.SRoot
 
 namespace Smooth
 open Classical Filter Topology
@@ -133,25 +134,6 @@ theorem mulTerms_sum (ds vs : List ℝ) (h : ds.length = vs.length) :
 
 /-! ### the sign-keeping root -/
 
-theorem sroot_of_nonneg {n : ℕ} {x : ℝ} (h : 0 ≤ x) : sroot n x = x ^ ((1 : ℝ) / n) := by
-  simp [sroot, h]
-
-theorem sroot_of_neg {n : ℕ} {x : ℝ} (h : x < 0) : sroot n x = -((-x) ^ ((1 : ℝ) / n)) := by
-  simp [sroot, not_le.mpr h]
-
-theorem sroot_pos {n : ℕ} {x : ℝ} (h : 0 < x) : 0 < sroot n x := by
-  rw [sroot_of_nonneg h.le]; exact Real.rpow_pos_of_pos h _
-
-theorem sroot_neg_of_neg {n : ℕ} {x : ℝ} (h : x < 0) : sroot n x < 0 := by
-  rw [sroot_of_neg h]
-  have : 0 < (-x) ^ ((1 : ℝ) / n) := Real.rpow_pos_of_pos (neg_pos.mpr h) _
-  linarith
-
-theorem sroot_ne_zero {n : ℕ} {x : ℝ} (h : x ≠ 0) : sroot n x ≠ 0 := by
-  rcases lt_or_gt_of_ne h with h | h
-  · exact ne_of_lt (sroot_neg_of_neg h)
-  · exact ne_of_gt (sroot_pos h)
-
 theorem sroot_pow' {n : ℕ} (hn : 1 ≤ n) (x : ℝ) (h : 0 ≤ x ∨ n % 2 = 1) : sroot n x ^ n = x := by
   have hn0 : (n : ℝ) ≠ 0 := by exact_mod_cast (by omega : n ≠ 0)
   unfold sroot
@@ -173,7 +155,7 @@ theorem continuousAt_sroot {n : ℕ} {a : ℝ} (ha : a ≠ 0) : ContinuousAt (sr
   rcases lt_or_gt_of_ne ha with h | h
   · have hev : sroot n =ᶠ[𝓝 a] fun x => -((-x) ^ ((1 : ℝ) / n)) := by
       filter_upwards [Iio_mem_nhds h] with x hx
-      exact sroot_of_neg hx
+      exact sroot_of_neg _ hx
     refine ContinuousAt.congr ?_ hev.symm
     have h1 : ContinuousAt (fun x : ℝ => -x) a := continuous_neg.continuousAt
     have h2 : ContinuousAt (fun y : ℝ => y ^ ((1 : ℝ) / n)) (-a) :=
@@ -181,7 +163,7 @@ theorem continuousAt_sroot {n : ℕ} {a : ℝ} (ha : a ≠ 0) : ContinuousAt (sr
     exact (h2.comp (f := fun x : ℝ => -x) h1).neg
   · have hev : sroot n =ᶠ[𝓝 a] fun x => x ^ ((1 : ℝ) / n) := by
       filter_upwards [Ioi_mem_nhds h] with x hx
-      exact sroot_of_nonneg (le_of_lt hx)
+      exact sroot_of_nonneg _ (le_of_lt hx)
     exact ContinuousAt.congr (Real.continuousAt_rpow_const _ _ (Or.inl ha)) hev.symm
 
 /-- derivative of the n-th root in the form the code uses: `1 / (n · (ⁿ√a)ⁿ⁻¹)`, on both half-lines -/
@@ -191,7 +173,7 @@ theorem hasDerivAt_sroot {n : ℕ} (hn : 1 ≤ n) {a : ℝ} (hok : RootOK n a) (
     simpa using hasDerivAt_pow n (sroot n a)
   have hne : (n : ℝ) * sroot n a ^ (n - 1) ≠ 0 := by
     have h1 : (n : ℝ) ≠ 0 := by exact_mod_cast (by omega : n ≠ 0)
-    exact mul_ne_zero h1 (pow_ne_zero _ (sroot_ne_zero ha))
+    exact mul_ne_zero h1 (pow_ne_zero _ (sroot_ne_zero _ ha))
   refine HasDerivAt.of_local_left_inverse (continuousAt_sroot ha) hf hne ?_
   rcases lt_or_gt_of_ne ha with h | h
   · -- a < 0 : n is odd
